@@ -51,6 +51,14 @@ static void violation(const char* what, int expected, int got_client, long long 
     vmon::log("mt_violation", j);
 }
 
+// user code inside handlers and logger callbacks uses the shell's public queries (a client that
+// annotates what it receives with the list of registered clients)
+static std::function<size_t()> g_query_clients;
+static void query_clients(const char* where) {
+    if (!g_query_clients) return;
+    if (g_query_clients() == 0) violation(where, -1, -1, 0);
+}
+
 // the component raises an out-event (dispatcher thread); judge the delivery right here
 static void emit_done(const char* why) {
     size_t before = g_deliveries.size();
@@ -91,8 +99,9 @@ int main(int argc, char** argv) {
     dzn::runtime rt;
     loc.set(pump).set(rt);
     ::Dzn::ILog log;
-    log.Info = [](const std::string& m) { perturb(m.c_str()); };
-    log.Warning = [](const std::string& m) { vmon::J j; j.s("msg", m); vmon::log("ilog_warning", j); };
+    log.Info = [](const std::string& m) { perturb(m.c_str()); query_clients("no-client-identifiers-seen-from-logger"); };
+    log.Warning = [](const std::string& m) { vmon::J j; j.s("msg", m); vmon::log("ilog_warning", j);
+                                             query_clients("no-client-identifiers-seen-from-logger"); };
     log.Error = [](const std::string& m) { vmon::J j; j.s("msg", m); vmon::log("ilog_error", j); };
 
     // the logger is handed over as a copy that its owner re-binds right after construction: the
@@ -128,10 +137,12 @@ int main(int argc, char** argv) {
     for (int k = 0; k < clients; ++k) {
         const std::string ident = k < 8 ? kClientNames[k] : "c" + std::to_string(k);
         Port& p = shell.ProvidesMultiClientApi(ident).port;
-        p.out.Done = [k](Id t) { g_deliveries.push_back({k, t.id}); };
+        p.out.Done = [k](Id t) { g_deliveries.push_back({k, t.id});
+                                 query_clients("no-client-identifiers-seen-from-out-event-handler"); };
         ports.push_back(&p);
     }
     shell.FinalConstruct();
+    g_query_clients = [&shell] { return shell.GetApiClientIdentifiers().size(); };
     vmon::log("mt_setup_done");
 
     std::atomic<long long> completed_cycles{0}, gave_up{0}, denied{0};
